@@ -576,6 +576,11 @@ func (graph *Graph) changeParent(child, oldParent, newParent INode) error {
 		return nil
 	}
 	if oldParent == nil {
+		if newParent == nil {
+			// nothing was linked and nothing is to be linked, e.g. a bind whose function
+			// returns nil on its first run or twice in a row
+			return nil
+		}
 		return graph.addChild(child, newParent)
 	}
 
